@@ -15,6 +15,9 @@ CHECKS = {
     'C15': ('table extraction from if-chains/switches (escape, unescape, jsmn accept sets) compared as relations; forward must-analysis of container non-emptiness on the CFG of Data::fromJSON; linear-form comparison of allocation size and parser capacity',
             'Decides for all byte values that the JSON escape writer, the unescape reader and the jsmn string scanner agree on every escaped character, that Data::fromJSON never peeks or pops an empty stack on any CFG path, and that the sentinel token the walker relies on is kept.',
             'Not decided: equality of round-tripped Data trees for all values; absence of out-of-bounds inside jsmn.c itself; Event<->Data agreement is decided under C14.'),
+    'C17': ('LALR(1) table interrogation: the shipped yypact/yytable/... arrays are read from the AST and walked like bison\'s skeleton for every operator pair/triple; switch-arm table extraction (constructed node kinds and arities vs evaluator arms); sequencing rule on the operand iterator; CFG dominance of the zero-divisor and index-bound tests',
+            'Decides exhaustively over all 225 ordered operator pairs (3375 triples in the thorough tier) how the shipped parser groups them, that every parsed operator of the set is evaluated with the arity it is built with, that operand fetches are sequenced, and that division/modulo and array indexing are guarded.',
+            'Not decided: numeric results, struct/array read-back values.'),
     'C20': ('type-resolved AST queries over the transformer call-graph closure (pointer insertion, address-ordered iteration, nondeterminism sources) + CFG must-pass-through for the cache guard',
             'Decides for all documents at once that no pointer value, address-ordered container iteration, address-based sort or other nondeterminism source feeds transformer output, and that cache files have no unguarded consumer.',
             'Not decided: std::hash stability (assumed), trace determinism of the interpreter beyond address-ordered iteration in the engines (thorough).'),
